@@ -17,7 +17,10 @@ RULE = (
     "on a line told apart by method name or by argument names; the same method and argument names twice on a line (must "
     "raise); black-style wrapped chains; an argument on its own lines; multi-line bodies; comments and string literals "
     "containing brackets, commas and the word lambda; enclosing if / class method / nested def / call argument; one-line "
-    "defs; other lambdas on the same line (before a semicolon, in another call's keyword, as a default argument); the "
+    "defs; other lambdas on the same line (before a semicolon, in another call's keyword, as a default argument); several "
+    "operator calls side by side in a tuple / list / dict / keyword arguments reached through short aliases of the dataset "
+    "(d, a, b, l, m, la ...); a passed lambda that is not the written argument but differs from its neighbour in argument "
+    "names (conditional expression, pass-through helper: right or raise); the "
     "not-written-as-the-argument family (conditional expression, tuple) of the known finding; indentation 4/8; "
     "non-trivial = every case; distinct = module text"
 )
